@@ -286,6 +286,41 @@ func EmitPackage(set *Set, pkg *Package, checks int) (helper, test string) {
 			fmt.Fprintf(&h, "\t}\n")
 		}
 		fmt.Fprintf(&h, "\treturn n\n}\n\n")
+		// absent fields read as the zero value
+		fmt.Fprintf(&h, "func VerifAbsentZero%s(m %s) string {\n", d.Name, d.Name)
+		for _, f := range d.Fields {
+			m := Camel(f.Name)
+			base := Type{Pkg: f.Type.Pkg, Name: f.Type.Name}
+			r := e.resolve(base)
+			var nz string
+			switch {
+			case f.Type.List:
+				nz = "m." + m + "().Len() != 0"
+			case r.kind == "builtin":
+				switch base.Name {
+				case "bool":
+					nz = "m." + m + "()"
+				case "bin64", "bin128", "bin256":
+					nz = "!m." + m + "().IsZero()"
+				case "bytes", "string":
+					nz = "len(m." + m + "()) != 0"
+				default:
+					nz = "m." + m + "() != 0"
+				}
+			case r.kind == "enum":
+				nz = "m." + m + "() != 0"
+			case r.kind == "struct":
+				nz = "fmt.Sprint(m." + m + "()) != fmt.Sprint(" + r.goName + "{})"
+			case r.kind == "msg":
+				nz = "!m." + m + "().IsEmpty()"
+			case r.kind == "any":
+				nz = "len(m." + m + "()) != 0"
+			default:
+				nz = "!m." + m + "().Empty()"
+			}
+			fmt.Fprintf(&h, "\tif !m.Has%s() && (%s) {\n\t\treturn %q\n\t}\n", m, nz, f.Name)
+		}
+		fmt.Fprintf(&h, "\treturn \"\"\n}\n\n")
 	}
 	// ---- header ----
 	var hdr strings.Builder
